@@ -203,11 +203,28 @@ def stream_for0(pid, tier, seed):
         cases += half_stream(rng, pid)
         return cases
     if pid == "C05":
-        cases = defects + pulls_stream(rng, tier, pid, prof=dict(nonfused=False), exh=False, n_random=800 if not big else 30000)
+        cases = defects + pulls_stream(rng, tier, pid, prof=dict(nonfused=True), exh=False, n_random=800 if not big else 30000)
+        # the end reached in every way (drained by singles / chunks / buffered pulls / loops, or skipped), then queries and pulls
+        j = 0
+        for kind in ALL_KINDS:
+            for hint in (["exact", "inexact", "unbounded"] if kind in ("iter", "iterref") else [None]):
+                for L in (0, 1, 3, 4):
+                    for how in (["next"] * (L + 1), ["chunk 2 all"] * (L // 2 + 1), ["chunk %d all" % max(1, L)] * 2, ["bufnew 2"] + ["bufnext all"] * (L // 2 + 1),
+                                ["foreach 1"], ["foreach 3"], ["next", "skip", "next"], ["skip", "chunk 2 all"], ["values"]):
+                        for nt in (1, 2):
+                            c = make_source(rng, "C05-end%d" % j, kind, L, hint=hint)
+                            tail = ["len", "hasmore", "next", "chunk 2 all", "hasmore", "nextv", "len"]
+                            c.threads = [list(how) + tail] + ([["next", "len", "chunk 3 all", "hasmore"]] if nt == 2 else [])
+                            c.sched = rand_sched(rng, nt, 30)
+                            c.owner = rng.choice(["drop", "intoseq all"])
+                            cases.append(c)
+                            j += 1
         # past-the-end: many further pulls after the first end
         for i in range(300 if not big else 20000):
             c = rand_case(rng, "C05-p%d" % i, dict(lens=[0, 1, 2, 3, 5], ops=(1, 3), drain=1.0, loops=False))
             for t in c.threads:
+                if rng.random() < 0.3:
+                    t.insert(rng.randint(0, len(t)), "skip")
                 for _ in range(rng.randint(3, 20)):
                     t.append(rng.choice(["next", "nextv", "chunk 1 all", "chunk 3 all", "len", "hasmore", "bufnew 2", "bufnext all"]) )
             # a bufnext needs a buffer
